@@ -18,7 +18,8 @@
    below 2^53, where exact and float64 comparison coincide; see notes/C08.md. *)
 From Coq Require Import List ZArith Bool String Ascii.
 From GZ Require Import C08.Model C08.Spec C08.Proofs C08.ProofsB.
-From GZ Require Import C08.KModel C08.KSpec C08.KProofs C08.KProofsB C08.KProofsC C08.Rounding C08.Check C08.CheckProofs C08.TagModel C08.TagProofs.
+From GZ Require Import C08.KModel C08.KSpec C08.KProofs C08.KProofsB C08.KProofsC C08.Rounding C08.Check C08.CheckProofs C08.TagModel C08.TagProofs C08.ReqModel C08.ReqProofs.
+From GZgen Require Import C08Consts.
 Import ListNotations.
 Open Scope Z_scope.
 Open Scope string_scope.
@@ -462,3 +463,98 @@ Example ex_parse_cases :
   /\ run_calls [ex_parse "1000" None; ex_parse "10" (Some true)] =
      [CRejected false; CAccepted [VStruct [VInt 7]; VStruct [VStr "x"]; VStruct [VStr "t1"]; VStruct [VInt 10]]].
 Proof. vm_compute. repeat split. Qed.
+
+(* ---------------------------------------------------------------- one request, looked at several times
+
+   ReqModel.v: the request object of the caller (path variables, r.Form, r.Header, the decoded body)
+   and what each REST entry point makes of it.  "Supplied" for a form parameter: GetFormValues hands
+   the unmarshaller exactly the non-empty values of the parameter, in the order sent — an empty value
+   in front of, between or behind them changes nothing — and a parameter without one is absent. *)
+
+Theorem empty_form_values_are_ignored_in_every_position : forall a b, kept (a ++ "" :: b) = kept (a ++ b).
+Proof. exact kept_ignores_empty. Qed.
+Print Assumptions empty_form_values_are_ignored_in_every_position.
+
+Theorem kept_values_are_the_nonempty_ones : forall v vs, In v (kept vs) <-> In v vs /\ v <> "".
+Proof. exact kept_in. Qed.
+Print Assumptions kept_values_are_the_nonempty_ones.
+
+Theorem form_parameter_supplied_iff_it_has_a_value : forall max cfg env f name vs,
+  total_kept f <= max -> NoDup (stripped_names f) -> In (name, vs) f ->
+  exists o, form_values max f = Some (JObj o) /\
+            getv (mkK cfg seg_opaque) env (strip_suffix name) o =
+            match kept vs with [] => None | ks => Some (JArr (map JStr ks)) end.
+Proof. exact form_field_supplied. Qed.
+Print Assumptions form_parameter_supplied_iff_it_has_a_value.
+
+Theorem form_values_holds_nothing_else : forall f k v,
+  In (k, v) (params_of f) ->
+  exists name vs, In (name, vs) f /\ k = strip_suffix name /\ kept vs <> [] /\ v = JArr (map JStr (kept vs)).
+Proof. exact params_only. Qed.
+Print Assumptions form_values_holds_nothing_else.
+
+Theorem too_many_form_values_iff : forall max f, form_values max f = None <-> total_kept f > max.
+Proof. exact form_values_refuses_iff. Qed.
+Print Assumptions too_many_form_values_iff.
+
+(* any number of looks at ONE request, through any entry points, in any order, with any target
+   types: the request is left as it was, and every look returns what its entry point returns on
+   that request alone — the k-th parse of a request is its first parse *)
+Theorem looks_at_one_request_are_independent : forall max r ls,
+  serve_shared max touch_head r ls = (r, map (fun l => serve_call (call_on max r l)) ls).
+Proof. exact serve_shared_head. Qed.
+Print Assumptions looks_at_one_request_are_independent.
+
+Theorem look_served_as_if_alone : forall max r pre l post,
+  nth_error (snd (serve_shared max touch_head r (pre ++ l :: post))) (List.length pre) =
+  Some (serve_call (call_on max r l)).
+Proof. exact shared_look_alone. Qed.
+Print Assumptions look_served_as_if_alone.
+
+Theorem every_look_sound_and_exact : forall max r ls i l vs,
+  nth_error ls i = Some l ->
+  nth_error (snd (serve_shared max touch_head r ls)) i = Some (CAccepted vs) ->
+  Forall2 pass_ok (c_passes (call_on max r l)) vs /\ c_validator (call_on max r l) <> Some false.
+Proof. exact shared_each_sound_exact. Qed.
+Print Assumptions every_look_sound_and_exact.
+
+Theorem same_look_same_result : forall max r ls i j l,
+  nth_error ls i = Some l -> nth_error ls j = Some l ->
+  nth_error (snd (serve_shared max touch_head r ls)) i = nth_error (snd (serve_shared max touch_head r ls)) j.
+Proof. exact shared_same_look_same_result. Qed.
+Print Assumptions same_look_same_result.
+
+Theorem looks_total : forall max r ls i, nth_error (snd (serve_shared max touch_head r ls)) i <> Some CPanic.
+Proof. exact shared_no_panic. Qed.
+Print Assumptions looks_total.
+
+(* the tie: a checked case that agrees with the model carries, for every form pass, the document
+   [form_values] makes of the parameters that were sent (maxFormParamCount re-read from the source) *)
+Theorem agreed_form_documents_are_get_form_values : forall cs c f d,
+  agrees cs = true -> In c cs -> In (f, d) (oc_forms c) -> form_values gen_max_form_values f = d.
+Proof. exact agreed_forms_case. Qed.
+Print Assumptions agreed_form_documents_are_get_form_values.
+
+(* non-vacuity: ?ids=&ids=2&ids=3&tags[]=&tags[]=x&n= looked at by a validator's ParseForm and the handler's Parse *)
+Definition ex_views : views :=
+  mkViews (FCons "id" None (TPrim (KInt W0)) FNil)
+          (FCons "ids" None (TSlice (TPrim (KInt W0)))
+            (FCons "tags" (Some (mkOpts true None None None [] false)) (TSlice (TPrim KStr))
+              (FCons "n" (Some (mkOpts true None None (Some r100) [] false)) (TPrim (KInt W0)) FNil)))
+          FNil FNil.
+Definition ex_request : hrequest :=
+  mkHReq [("id", "5")] [("ids", [""; "2"; "3"]); ("tags[]", [""; "x"]); ("n", [""])] [] (Some (JObj [])).
+
+Example ex_looks :
+  form_values 2048 (hr_form ex_request) = Some (JObj [("ids", JArr [JStr "2"; JStr "3"]); ("tags", JArr [JStr "x"])])
+  /\ NoDup (stripped_names (hr_form ex_request)) /\ total_kept (hr_form ex_request) <= 2048
+  /\ serve_shared 2048 touch_head ex_request [mkLook EParseForm ex_views; mkLook (EParse (Some true)) ex_views; mkLook EGetFormValues ex_views] =
+     (ex_request,
+      [CAccepted [VStruct [VSlice [VInt 2; VInt 3]; VSlice [VStr "x"]; VInt 0]];
+       CAccepted [VStruct [VInt 5]; VStruct [VSlice [VInt 2; VInt 3]; VSlice [VStr "x"]; VInt 0]; VStruct []; VStruct []];
+       CAccepted [VStruct [VSlice [VInt 2; VInt 3]; VSlice [VStr "x"]; VInt 0]]]).
+Proof.
+  split; [vm_compute; reflexivity|]. split.
+  - repeat constructor; simpl; intuition discriminate.
+  - split; vm_compute; [discriminate | reflexivity].
+Qed.
